@@ -7,7 +7,7 @@ def chk(pid, engine, text, note, tech, level="exploration"):
         "evidence_file": "/verif/evidence/%s.json" % pid, "replay_cmd_template": "python3 bin/vcheck.py %s --replay {path}" % pid, "engine": engine,
         "level_claimed": {"category": level, "text": text, "design_ref": "DESIGN.md §2 " + pid}, "level_note": note, "technique": tech}
 
-chk("C01", "lbfuzz", "Seeded random operation programs run against real LinkBuffers with an executable FIFO byte-queue model beside each buffer; every return value, Len/MallocLen and the node-chain structure are asserted after every operation. Held on the programs executed, nothing more.",
+chk("C01", "lbfuzz", "Seeded random operation programs run against real LinkBuffers with an executable FIFO byte-queue model beside each buffer; every return value, Len/MallocLen and the node-chain structure are asserted after every operation. The skip-resumed delimiter search that connection.Until uses (indexByte) is compared with the model at spread and node-boundary skips before every Until. Held on the programs executed, nothing more.",
     "Generator stays inside the documented Writer/Reader contract; stand-in buffer pool (fresh poisoned blocks) replaces mcache; non-race build; single goroutine.",
     "runtime monitoring: reference-model oracle + structural invariant hook over seeded operation sequences")
 chk("C02", "lbfuzz", "Every zero-copy result (Next/Peek/Until/GetBytes vectors/Slice readers) is registered with a snapshot and re-compared after every later operation; the stand-in pool reports every Free, and a Free that overlaps a live result of an unreleased reader is flagged at that instant.",
@@ -19,7 +19,7 @@ chk("C03", "lbfuzz", "Pool ledger (address -> issued/freed, capacity) asserted i
 chk("C16", "lbfuzz", "Scripted io.Reader/io.Writer monitors (they know every byte they produced/accepted from a position-keyed PRF stream) under seeded random Reader/Writer call sequences on NewReader/NewWriter/NewIOReader/NewIOWriter; every returned byte, Len, error surfacing/mapping and the bytes offered to the sink across successive Flush calls are asserted. The caller re-uses its slice right after ioWriter.Write; buffer-oracle hits (C01-C03) during an adapter program count as C16 violations.",
     "Sources/sinks stay inside the io.Reader/io.Writer contracts (no negative counts, short write => error); stand-in pool; buffer-level oracle failures inside adapter cases keep their C01-C03 tag.",
     "runtime monitoring: scripted source/sink monitors + reference stream model over seeded call sequences")
-chk("C04", "connmon", "Real TCP/unix connections between netpoll endpoints; the stream of each connection is PRF(seed, position), written with random Writer mixes and verified byte by byte by the receiver (handler or blocking reader) with random Reader mixes, socket-buffer sizes, reader stalls, hook-point jitter and (half of the trials) spurious EAGAIN at the sendmsg wrapper; end-of-stream only after exactly the flushed byte count.",
+chk("C04", "connmon", "Real TCP/unix connections between netpoll endpoints; the stream of each connection is PRF(seed, position), written with random Writer mixes and verified byte by byte by the receiver (handler or blocking reader) with random Reader mixes, socket-buffer sizes, reader stalls, hook-point jitter and (half of the trials) spurious EAGAIN at the sendmsg wrapper; end-of-stream only after exactly the flushed byte count. Round 5: reset (SO_LINGER 0) after complete delivery with the reader paused mid-stream - what netpoll has read stays readable.",
     "Linux epoll poller, non-race build (the lock-free buffer hand-off runs); one-way streams closed with FIN; guarantee ends at the first write error.",
     "runtime monitoring: position-keyed stream oracle on live connections + hook-point delay injection")
 
